@@ -60,7 +60,7 @@ func c20nameNum(a gen.Atom) int {
 func c20min(t time.Time) int64 { return t.Unix() / 60 } // t after 1970, whole minute
 
 type c20shadowJob struct {
-	spec    cSpec
+	spec    c20Spec
 	zi      int
 	enabled bool
 }
@@ -78,7 +78,7 @@ func (s *c20scn) op(line, want, descr string) {
 	s.descr = append(s.descr, descr)
 }
 
-func sortedInts(xs []int) string {
+func c20sortedInts(xs []int) string {
 	if len(xs) == 0 {
 		return "-"
 	}
@@ -261,19 +261,19 @@ func c20scenario(c *Ctx, z *c20zones, tickDone chan any, idx int) (*c20scn, bool
 		}
 		return base.Add(time.Duration(rng.Intn(120)) * time.Minute)
 	}
-	genSpec := func(zi int) (cSpec, string, bool) {
+	genSpec := func(zi int) (c20Spec, string, bool) {
 		t := next.In(z.loc[zi])
 		switch rng.Intn(10) {
 		case 0:
 			s, _ := c20invalidSpec(rng)
 			return s, s.String(), false
 		case 1, 2:
-			var s cSpec
+			var s c20Spec
 			for k := range s.F {
-				s.F[k] = cField{Star: true}
+				s.F[k] = c20Field{Star: true}
 			}
 			if rng.Bool() {
-				s.F[0] = cField{Items: []cItem{{T: itNum, A: t.Minute()}}}
+				s.F[0] = c20Field{Items: []c20Item{{T: c20itNum, A: t.Minute()}}}
 			}
 			return s, s.String(), true
 		case 3, 4, 5, 6:
@@ -282,13 +282,13 @@ func c20scenario(c *Ctx, z *c20zones, tickDone chan any, idx int) (*c20scn, bool
 				t = t.Add(time.Minute)
 			}
 			s := c20force(rng, c20specAround(rng, t), t, rng.Intn(3))
-			s.F[0] = cField{Items: []cItem{{T: itNum, A: t.Minute()}, {T: itNum, A: (t.Minute() + 2) % 60}}}
+			s.F[0] = c20Field{Items: []c20Item{{T: c20itNum, A: t.Minute()}, {T: c20itNum, A: (t.Minute() + 2) % 60}}}
 			if rng.Bool() {
-				s.F[1] = cField{Items: []cItem{{T: itRange, A: t.Hour(), B: t.Hour()}}}
+				s.F[1] = c20Field{Items: []c20Item{{T: c20itRange, A: t.Hour(), B: t.Hour()}}}
 			} else {
-				s.F[1] = cField{Star: true}
+				s.F[1] = c20Field{Star: true}
 			}
-			s.F[3] = cField{Star: true}
+			s.F[3] = c20Field{Star: true}
 			return s, s.String(), true
 		}
 		s := c20spec(rng)
@@ -316,7 +316,7 @@ func c20scenario(c *Ctx, z *c20zones, tickDone chan any, idx int) (*c20scn, bool
 		}
 		return xs
 	}
-	addJob := func(name, zi int, spec cSpec, text string, valid bool) (string, string, string) {
+	addJob := func(name, zi int, spec c20Spec, text string, valid bool) (string, string, string) {
 		err := func() (err error) {
 			defer func() {
 				if p := recover(); p != nil {
@@ -375,13 +375,13 @@ func c20scenario(c *Ctx, z *c20zones, tickDone chan any, idx int) (*c20scn, bool
 		zi := zis[rng.Intn(2)]
 		need(zi, x)
 		t := x.In(z.loc[zi])
-		var spec cSpec
+		var spec c20Spec
 		for k := range spec.F {
-			spec.F[k] = cField{Star: true}
+			spec.F[k] = c20Field{Star: true}
 		}
 		if rng.Chance(2, 3) {
-			spec.F[0] = cField{Items: []cItem{{T: itNum, A: t.Minute()}}}
-			spec.F[1] = cField{Items: []cItem{{T: itNum, A: t.Hour()}}}
+			spec.F[0] = c20Field{Items: []c20Item{{T: c20itNum, A: t.Minute()}}}
+			spec.F[1] = c20Field{Items: []c20Item{{T: c20itNum, A: t.Hour()}}}
 		} // else "* * * * *": spooled for x inside the tick and again for the minute the next run happens in
 		name := freeName()
 		return func() (string, string, string) { return addJob(name, zi, spec, spec.String(), true) }
@@ -462,14 +462,14 @@ func c20scenario(c *Ctx, z *c20zones, tickDone chan any, idx int) (*c20scn, bool
 			}
 		}
 		if timely {
-			want := sortedInts(exp)
+			want := c20sortedInts(exp)
 			var uniq []int
 			for n := range seen {
 				uniq = append(uniq, n)
 			}
-			if sortedInts(uniq) != want {
+			if c20sortedInts(uniq) != want {
 				r.Violation("C20/tick-fires-wrong-set", fmt.Sprintf("tick at %s: jobs that are present, enabled and match this minute: [%s]; jobs run: [%s]",
-					now.UTC().Format(time.RFC3339), want, sortedInts(uniq)), ctx)
+					now.UTC().Format(time.RFC3339), want, c20sortedInts(uniq)), ctx)
 			}
 		}
 		if nx := vc.Next(); !nx.Equal(now.Add(time.Minute)) {
@@ -479,10 +479,10 @@ func c20scenario(c *Ctx, z *c20zones, tickDone chan any, idx int) (*c20scn, bool
 		next = now.Add(time.Minute)
 		needAll(next)
 		if mid == nil {
-			scn.op(fmt.Sprintf("tick %d", c20min(now)), "fired "+sortedInts(names), "timer function at "+now.UTC().Format(time.RFC3339))
+			scn.op(fmt.Sprintf("tick %d", c20min(now)), "fired "+c20sortedInts(names), "timer function at "+now.UTC().Format(time.RFC3339))
 		} else {
 			r.Count("k2.tick.with-call-inside")
-			scn.op(fmt.Sprintf("tickdrain %d", c20min(now)), "fired "+sortedInts(names), "timer function at "+now.UTC().Format(time.RFC3339)+", spool loop")
+			scn.op(fmt.Sprintf("tickdrain %d", c20min(now)), "fired "+c20sortedInts(names), "timer function at "+now.UTC().Format(time.RFC3339)+", spool loop")
 			scn.op(midLine, midWant, "  inside the timer function: "+midDescr)
 			scn.op(fmt.Sprintf("ticksched %d", c20min(now)), "ok", "timer function, c.schedule(next)")
 		}
@@ -633,7 +633,7 @@ func c20scenario(c *Ctx, z *c20zones, tickDone chan any, idx int) (*c20scn, bool
 			if len(sp) > 0 {
 				spooled = true
 			}
-			scn.op("info", fmt.Sprintf("%d %s %s %s", c20min(vc.Next()), sortedInts(sp), sortedInts(spAll), sortedInts(jobs)), "Info()")
+			scn.op("info", fmt.Sprintf("%d %s %s %s", c20min(vc.Next()), c20sortedInts(sp), c20sortedInts(spAll), c20sortedInts(jobs)), "Info()")
 		case 18:
 			since := pickTime().Add(time.Duration(rng.Intn(60000)) * time.Millisecond)
 			period := time.Duration(rng.Intn(45)) * time.Minute
@@ -692,7 +692,7 @@ func c20scenario(c *Ctx, z *c20zones, tickDone chan any, idx int) (*c20scn, bool
 				for _, a := range e.Jobs {
 					ns = append(ns, c20nameNum(a))
 				}
-				parts = append(parts, fmt.Sprintf("%d:%s", c20min(e.Time), sortedInts(ns)))
+				parts = append(parts, fmt.Sprintf("%d:%s", c20min(e.Time), c20sortedInts(ns)))
 				// oracle
 				var exp []int
 				for n, j := range shadow {
@@ -700,8 +700,8 @@ func c20scenario(c *Ctx, z *c20zones, tickDone chan any, idx int) (*c20scn, bool
 						exp = append(exp, n)
 					}
 				}
-				if sortedInts(exp) != sortedInts(ns) {
-					r.Violation("C20/schedule", fmt.Sprintf("Schedule: at %s jobs [%s] match, reported [%s]", e.Time.UTC().Format(time.RFC3339), sortedInts(exp), sortedInts(ns)), map[string]interface{}{"ops": append([]string(nil), scn.descr...)})
+				if c20sortedInts(exp) != c20sortedInts(ns) {
+					r.Violation("C20/schedule", fmt.Sprintf("Schedule: at %s jobs [%s] match, reported [%s]", e.Time.UTC().Format(time.RFC3339), c20sortedInts(exp), c20sortedInts(ns)), map[string]interface{}{"ops": append([]string(nil), scn.descr...)})
 				}
 			}
 			want := "-"
